@@ -301,3 +301,117 @@ Proof.
   assert (Hk : KnownC05_idf_size (pic_of b)) by (unfold KnownC05_idf_size; cbn [pic_of p_h]; lia).
   split; [exact Hk|]. apply idf_known_size_refused; [exact Hk|exact Hi].
 Qed.
+
+(* ------------------------------------------------------------------ IDF: what any accepted file loads as *)
+Definition idf_inv (L : layer) (bh : Z) : Prop :=
+  l_w L = 80 /\ l_h L = bh /\ 1 <= bh /\ all_cells (stored8 Ice) (l_lines L).
+
+Lemma idf_put_n_inv x1 x2 c : stored8 Ice c -> forall n L bh x y,
+  0 <= y -> idf_inv L bh ->
+  idf_inv (fst (fst (fst (idf_put_n n x1 x2 c L bh x y)))) (snd (fst (fst (idf_put_n n x1 x2 c L bh x y)))) /\
+  0 <= snd (idf_put_n n x1 x2 c L bh x y).
+Proof.
+  intro Hc. induction n as [|n IH]; intros L bh x y Hy Hinv; [cbn; auto|].
+  cbn [idf_put_n]. destruct (idf_advance x1 x2 x y) as [x' y'] eqn:Ea.
+  assert (Hy' : 0 <= y') by (unfold idf_advance in Ea; destruct (x + 1 >? x2); injection Ea as <- <-; lia).
+  apply IH; [exact Hy'|].
+  destruct Hinv as (Hw & Hh & Hb & Hcells). unfold idf_inv. rewrite put_width.
+  split; [exact Hw|]. split.
+  - unfold put, layer_set_char. destruct (out_of_layer _ x y); reflexivity.
+  - split; [lia|]. apply put_all_cells; [left; reflexivity|exact Hc|exact Hcells].
+Qed.
+
+Lemma stored8_decoded ch a : (ch < 256)%N -> (a < 256)%N -> stored8 Ice (mkCell ch (from_u8 a Ice)).
+Proof. intros Hch Ha. right. exists ch, a. auto. Qed.
+
+Lemma idf_loop_inv x1 x2 : forall n area, (length area <= n)%nat -> is_bytes area -> forall L bh x y,
+  0 <= y -> idf_inv L bh ->
+  idf_inv (fst (fst (idf_loop x1 x2 L bh x y area))) (snd (fst (idf_loop x1 x2 L bh x y area))) /\
+  (snd (idf_loop x1 x2 L bh x y area) <= length area)%nat.
+Proof.
+  induction n as [|n IH]; intros area Hn Hb L bh x y Hy Hinv.
+  { destruct area; [cbn; auto|cbn in Hn; lia]. }
+  destruct area as [|ch [|a rest]]; try (cbn; split; [exact Hinv|lia]).
+  unfold is_bytes in Hb. inversion Hb as [|? ? Hch Hb1]; subst. inversion Hb1 as [|? ? Ha Hrest]; subst.
+  cbn [idf_loop]. cbn [length] in Hn.
+  destruct ((ch =? 1)%N && (a =? 0)%N).
+  - destruct rest as [|nl [|nh [|ch2 [|a2 rest2]]]]; try (cbn [fst snd length]; split; [exact Hinv|lia]).
+    inversion Hrest as [|? ? _ Hr1]; subst. inversion Hr1 as [|? ? _ Hr2]; subst.
+    inversion Hr2 as [|? ? Hch2 Hr3]; subst. inversion Hr3 as [|? ? Ha2 Hr4]; subst.
+    destruct (idf_put_n_inv x1 x2 _ (stored8_decoded ch2 a2 Hch2 Ha2) (N.to_nat (nl + nh * 256)) L bh x y Hy Hinv) as (Hi & Hy').
+    destruct (idf_put_n (N.to_nat (nl + nh * 256)) x1 x2 (mkCell ch2 (from_u8 a2 Ice)) L bh x y) as [[[L' bh'] x'] y'].
+    cbn [fst snd] in Hi, Hy'. cbn [length] in Hn.
+    destruct (IH rest2 ltac:(lia) Hr4 L' bh' x' y' Hy' Hi) as (H1 & H2). split; [exact H1|cbn [length]; lia].
+  - destruct (idf_put_n_inv x1 x2 _ (stored8_decoded ch a Hch Ha) 1 L bh x y Hy Hinv) as (Hi & Hy').
+    destruct (idf_put_n 1 x1 x2 (mkCell ch (from_u8 a Ice)) L bh x y) as [[[L' bh'] x'] y'].
+    cbn [fst snd] in Hi, Hy'.
+    destruct (IH rest ltac:(lia) Hrest L' bh' x' y' Hy' Hi) as (H1 & H2). split; [exact H1|cbn [length]; lia].
+Qed.
+
+Lemma idf_load_representable : forall data b,
+  is_bytes data -> load_idf data = Ok b -> b_w b <= 80 -> b_h b <= 200 -> representable_idf (pic_of b).
+Proof.
+  intros data b Hbytes Hload Hw80 Hh200. unfold load_idf in Hload.
+  change (N.to_nat IDF_HEADER_SIZE + N.to_nat IDF_FONT_SIZE + N.to_nat IDF_PALETTE_SIZE)%nat with 4156%nat in Hload.
+  destruct (Nat.ltb_spec (length data) 4156) as [|Hlen]; [discriminate|].
+  destruct data as [|v0 [|v1 [|v2 [|v3 [|x1l [|x1h [|y1l [|y1h [|x2l [|x2h [|y2l [|y2h rest]]]]]]]]]]]]; try discriminate.
+  match type of Hload with (if negb ?c then _ else _) = _ => destruct c end; cbn [negb] in Hload; [|discriminate].
+  set (x1 := u16le x1l x1h) in *. set (y1 := u16le y1l y1h) in *. set (x2 := u16le x2l x2h) in *.
+  destruct (Z.ltb_spec x2 x1) as [|Hx]; [discriminate|].
+  assert (Hrest : is_bytes rest).
+  { unfold is_bytes in Hbytes. repeat match goal with H : Forall _ (_ :: _) |- _ => inversion H; clear H; subst end. assumption. }
+  assert (Hy1 : 0 <= y1) by (unfold y1, u16le; lia).
+  cbn [length] in Hlen.
+  set (area_len := (length (v0 :: v1 :: v2 :: v3 :: x1l :: x1h :: y1l :: y1h :: x2l :: x2h :: y2l :: y2h :: rest) - 4156)%nat) in *.
+  assert (Hal : (area_len + 4144 = length rest)%nat) by (unfold area_len; cbn [length]; lia).
+  set (b1 := set_width (set_ice (buffer_new 80 25) Ice) (x2 - x1 + 1)) in *.
+  assert (Hinv0 : idf_inv (b_layer b1) (b_h b1)).
+  { unfold idf_inv. cbn. repeat split; try lia. apply (layer_new_all_cells (stored8 Ice) 80 25). left. reflexivity. }
+  destruct (idf_loop_inv x1 x2 _ (firstn area_len rest) (le_n _) (is_bytes_firstn _ _ Hrest) (b_layer b1) (b_h b1) x1 y1 Hy1 Hinv0) as (Hinv & Hun).
+  destruct (idf_loop x1 x2 (b_layer b1) (b_h b1) x1 y1 (firstn area_len rest)) as [[L bh] unread]. cbn [fst snd] in Hinv, Hun.
+  rewrite firstn_length in Hun.
+  set (tail := skipn (area_len - unread) rest) in *.
+  assert (Htl : (4144 <= length tail)%nat) by (unfold tail; rewrite skipn_length; lia).
+  change (N.to_nat IDF_FONT_SIZE) with 4096%nat in Hload. change (N.to_nat IDF_PALETTE_SIZE) with 48%nat in Hload.
+  destruct (font_create_8 16 (firstn 4096 tail)) as [font| |] eqn:Ef; cbn [bind] in Hload; try discriminate.
+  destruct (from_63 (firstn 48 (skipn 4096 tail))) as [pal| |] eqn:Ep; cbn [bind] in Hload; try discriminate.
+  injection Hload as <-.
+  assert (Htb : is_bytes tail) by (apply is_bytes_skipn, Hrest).
+  assert (Hfl : length (firstn 4096 tail) = (256 * N.to_nat 16)%nat).
+  { rewrite firstn_length. change (256 * N.to_nat 16)%nat with 4096%nat. apply Nat.min_l. lia. }
+  assert (H16 : (1 <= 16)%N) by lia.
+  destruct (font_create_8_wf 16 _ _ H16 Hfl Ef) as (Hwf & _).
+  destruct (from_63_shape _ _ (is_bytes_firstn _ 48 (is_bytes_skipn _ 4096 Htb)) Ep) as (Hp3 & Hp6).
+  rewrite firstn_length, skipn_length in Hp3.
+  destruct Hinv as (HLw & HLh & Hbh & Hcells).
+  cbn [b_w b_h set_pal set_fonts set_height set_layer] in Hw80, Hh200. change (b_w b1) with (x2 - x1 + 1) in Hw80.
+  unfold representable_idf.
+  cbn [pic_of p_w p_h p_ice p_pal p_fonts b_w b_h b_ice b_pal b_fonts set_pal set_fonts set_height set_layer].
+  change (b_w b1) with (x2 - x1 + 1). change (b_ice b1) with Ice.
+  split; [|split; [|split; [|split; [|split; [|split; [|split]]]]]].
+  - unfold rect.
+    apply (pic_of_rect (set_pal (set_fonts (set_height (set_layer b1 L) bh) [(0%N, font_named_default font)]) pal));
+      cbn [b_w b_h set_pal set_fonts set_height set_layer]; [change (b_w b1) with (x2 - x1 + 1)|]; lia.
+  - lia.
+  - lia.
+  - reflexivity.
+  - unfold all_pic_cells.
+    apply (pic_of_all_cells (stored8 Ice) (cell8_page0 Ice)); cbn [b_w b_h b_layer set_pal set_fonts set_height set_layer].
+    + change (b_w b1) with (x2 - x1 + 1). lia.
+    + lia.
+    + left. reflexivity.
+    + exact Hcells.
+    + intros c Hc. apply stored8_seen, Hc.
+  - lia.
+  - exact Hp6.
+  - cbn [get_font N.eqb]. eexists. split; [reflexivity|].
+    destruct Hwf as (H1 & H2 & H3 & H4). unfold font_wf. cbn [font_named_default f_h f_len f_glyphs]. auto.
+Qed.
+
+Lemma idf_resave_proof : forall data b,
+  is_bytes data -> load_idf data = Ok b -> b_w b <= 80 -> b_h b <= 200 ->
+  forall compress, exists data' b', save_idf compress (pic_of b) = Ok data' /\ load_idf data' = Ok b' /\
+                                    same_picture true [0%N] (pic_of b) (pic_of b').
+Proof.
+  intros data b Hd Hl Hw Hh compress. apply idf_roundtrip_proof. exact (idf_load_representable data b Hd Hl Hw Hh).
+Qed.
